@@ -185,7 +185,9 @@ def make_special() -> Any:
                  "instance_twin_of_class_first", "instance_twin_of_class_second", "param_with_default_annotated",
                  "kwonly_param_unannotated", "kwonly_param_annotated",
                  "defective_input_node_reached_only_implicitly_no_base", "defective_input_node_reached_only_implicitly_unannotated",
-                 "input_node_reached_only_implicitly_valid")
+                 "input_node_reached_only_implicitly_valid",
+                 "variadic_kw_param_unannotated", "variadic_pos_param_unannotated", "variadic_params_annotated",
+                 "variadic_params_conventional_names")
 
         def good(name: str, ann: Dict[str, Any], rec: bool = True, ad: bool = True) -> type:
             def process(self: Any, **kwargs: Any) -> Any:
@@ -221,6 +223,28 @@ def make_special() -> Any:
                         process.__annotations__["scale"] = int
                     else:
                         want = BE.UndefinedParamAnnotation
+                    mid = type("Mid", (RecurrentProcessor,), {"process": process, "name": "mid"})
+                    out = good("Out", {"x": M.Input(mid)})
+                elif case.startswith("variadic_"):
+                    # *extra / **options are parameters like any other: un-annotated they are a defect; the conventional
+                    # *args / **kwargs are exempt by name
+                    if case == "variadic_kw_param_unannotated":
+                        def process(self: Any, a, **options) -> Any:  # noqa: ANN001, ANN003
+                            return 0
+                        want = BE.UndefinedParamAnnotation
+                    elif case == "variadic_pos_param_unannotated":
+                        def process(self: Any, a, *extra) -> Any:  # noqa: ANN001, ANN002
+                            return 0
+                        want = BE.UndefinedParamAnnotation
+                    elif case == "variadic_params_annotated":
+                        def process(self: Any, a, *extra, **options) -> Any:  # noqa: ANN001, ANN002, ANN003
+                            return 0
+                    else:
+                        def process(self: Any, a, *args, **kwargs) -> Any:  # noqa: ANN001, ANN002, ANN003
+                            return 0
+                    process.__annotations__ = {"a": M.Input(N1)}
+                    if case == "variadic_params_annotated":
+                        process.__annotations__.update({"extra": Any, "options": Any})
                     mid = type("Mid", (RecurrentProcessor,), {"process": process, "name": "mid"})
                     out = good("Out", {"x": M.Input(mid)})
                 elif "input_node_reached_only_implicitly" in case:
@@ -353,7 +377,9 @@ register(Job("C16", "cooperating_declarations", make_special(), tier="quick", bu
              goals=("case:param_with_default_unannotated", "case:two_recs_same_start_first_dest_defective",
                     "case:raw_generic_twin_of_rebound_first", "case:instance_twin_of_class_second", "case:two_recs_same_start_valid",
                     "case:kwonly_param_unannotated", "case:defective_input_node_reached_only_implicitly_no_base",
-                    "case:input_node_reached_only_implicitly_valid"),
+                    "case:input_node_reached_only_implicitly_valid", "case:variadic_kw_param_unannotated",
+                    "case:variadic_pos_param_unannotated", "case:variadic_params_annotated",
+                    "case:variadic_params_conventional_names"),
              doc={"template": "9 declaration shapes that need two cooperating declarations x 2 parameter orders",
                   "symbolic": ["case", "parameter order of the output node"], "functions": FUN, "bounds": "28 cases",
                   "assumptions": ["finite-domain case split by z3; build_dag runs natively on each concrete case"]}))
